@@ -16,6 +16,9 @@ def main():
         mp = os.path.join(d, "meta.json")
         meta = json.load(open(mp)) if os.path.exists(mp) else {"id": k, "breaks_property": k[:3]}
         prop = meta["breaks_property"]
+        if meta.get("superseded"):
+            print(f"{k} {prop} SUPERSEDED (no longer breaks the property on the current tree, see meta.json)")
+            continue
         tmp = tempfile.mkdtemp(prefix="verif-seeded-")
         try:
             shutil.copytree("/repo/interp", os.path.join(tmp, "interp"))
